@@ -30,6 +30,7 @@ theorem verdict : (classify Generated.factsC08).Sound (Holds (cfgOf Generated.fa
 #print axioms Hv.Query.bucket_tracks_store
 #print axioms Hv.Query.bucketRouteS_run
 #print axioms bucket_tracks_store_current
+#print axioms witness_bucket_served_before_drain
 #print axioms holdsS_of
 #print axioms refutes_of_witnessS
 #print axioms witness_bucket_misses_update
